@@ -1,0 +1,404 @@
+//! Verification seams. Compiled only with `--cfg flurry_verif`; without the flag none of this
+//! exists and flurry is unchanged.
+//!
+//! An external harness installs one [`Hooks`] object. Every shared-memory operation, bin-lock
+//! operation, park/unpark and spin site of flurry reports to it, which lets the harness decide
+//! which thread runs next (deterministic simulation) and observe what happened. When no hooks
+//! are installed, or when the calling thread is not managed by the harness, every seam falls
+//! through to the real primitive.
+#![allow(
+    missing_docs,
+    missing_debug_implementations,
+    unreachable_pub,
+    dead_code,
+    clippy::new_without_default
+)]
+
+use std::fmt;
+use std::sync::atomic::{self as sa, Ordering};
+
+/// Which kind of memory operation a seam reports.
+#[derive(Clone, Copy, Debug, PartialEq, Eq)]
+#[repr(u8)]
+pub enum Kind {
+    Load,
+    Store,
+    Swap,
+    Cas,
+    FetchAdd,
+    FetchSub,
+}
+
+/// What kind of location is accessed.
+#[derive(Clone, Copy, Debug, PartialEq, Eq)]
+#[repr(u8)]
+pub enum Loc {
+    /// a `reclaim::Atomic<T>` pointer cell (bins, next, value, table, tree links, waiter)
+    Ptr,
+    /// `size_ctl`, `transfer_index`, `count`
+    Ctl,
+    /// `TreeBin::lock_state`
+    LockState,
+}
+
+/// One memory access through a seam. Reported once before it happens (`done == false`, this is
+/// the yield point) and once after (`done == true`, with the outcome).
+#[derive(Clone, Copy, Debug)]
+pub struct Access {
+    pub addr: usize,
+    pub loc: Loc,
+    pub kind: Kind,
+    /// ordering as passed by flurry (success ordering for a CAS)
+    pub ord: Ordering,
+    /// failure ordering of a CAS (otherwise equal to `ord`)
+    pub ord_fail: Ordering,
+    /// address of the `Collector` the guard used for this access belongs to; 0 for an
+    /// unprotected guard; `usize::MAX` when the operation takes no guard
+    pub collector: usize,
+    /// true when the guard is protected, in which case seize loads with SeqCst whatever `ord` says
+    pub protected: bool,
+    pub done: bool,
+    /// CAS outcome (true for everything else)
+    pub ok: bool,
+}
+
+/// Site events: "this rare thing happened" probes and the ledger for the resize protocol.
+#[derive(Clone, Copy, Debug, PartialEq, Eq, PartialOrd, Ord, Hash)]
+#[repr(u8)]
+pub enum Ev {
+    /// a = old table length, b = old table address
+    ResizeStarted,
+    /// a = old table length, b = bin index
+    BinMigrated,
+    /// a = old table length, b = new table address
+    Published,
+    /// a = old table length
+    HelperJoined,
+    /// a = old table length, b = 1 if this helper goes on to finish
+    HelperLeft,
+    /// a = table length
+    TableInit,
+    CasInsertLost,
+    /// a = site id
+    HeadChanged,
+    /// a = 0 Moved, 1 Tree
+    TreeifyRaced,
+    /// a = bin index, b = node count
+    Treeified,
+    /// a = bin index, b = remaining nodes
+    UntreeifiedOnRemove,
+    /// a = low count, b = high count
+    TreeSplit,
+    ReaderListFallback,
+    ReaderTreePath,
+    WriterSetWaiter,
+    WriterParks,
+    ReaderUnparks,
+    IterPush,
+    IterPop,
+    /// a = 0 list, 1 tree
+    RetainCompareFailed,
+    /// a = address retired, b = collector address (0 = unprotected)
+    Retire,
+    /// a = lock address
+    LockAcquired,
+    /// a = lock address
+    LockReleased,
+    InitTableLost,
+    ForwardedFind,
+    /// try_presize decided to start a resize; a = table length
+    PresizeResize,
+}
+
+/// The interface a harness implements.
+pub trait Hooks: Sync {
+    /// Is the calling thread managed by the harness? (Other threads use the real primitives.)
+    fn managed(&self) -> bool;
+    /// Memory access seam: called before (`done == false`) and after (`done == true`).
+    fn access(&self, a: &Access);
+    /// Called when `lock()` found the lock taken. The harness must not return before the lock
+    /// may be free again; the caller retries `try_lock` afterwards.
+    fn lock_blocked(&self, addr: usize);
+    /// Site event.
+    fn event(&self, ev: Ev, a: usize, b: usize);
+    /// `park()` of the calling managed thread; may return spuriously.
+    fn park(&self);
+    /// `unpark()` of the managed thread with this token.
+    fn unpark(&self, token: usize);
+    /// Token of the calling managed thread.
+    fn current(&self) -> usize;
+    /// Spin site: the caller waits for another thread's progress.
+    fn spin(&self);
+    /// Override for the number of CPUs used in the stride computation.
+    fn ncpu(&self) -> Option<usize>;
+    /// Override for the lower bound of the transfer stride.
+    fn min_stride(&self) -> Option<isize>;
+}
+
+static HOOKS: sa::AtomicPtr<&'static dyn Hooks> = sa::AtomicPtr::new(std::ptr::null_mut());
+
+/// Installs the hooks (once per process; later calls replace them).
+pub fn install(h: &'static dyn Hooks) {
+    let b: &'static mut &'static dyn Hooks = Box::leak(Box::new(h));
+    HOOKS.store(b, Ordering::SeqCst);
+}
+
+#[inline]
+fn hooks() -> Option<&'static dyn Hooks> {
+    let p = HOOKS.load(Ordering::Relaxed);
+    if p.is_null() {
+        return None;
+    }
+    // safety: only ever set to leaked boxes
+    let h: &'static dyn Hooks = unsafe { *p };
+    if h.managed() {
+        Some(h)
+    } else {
+        None
+    }
+}
+
+#[inline]
+pub(crate) fn access(a: Access) {
+    if let Some(h) = hooks() {
+        h.access(&a);
+    }
+}
+
+#[inline]
+pub(crate) fn event(ev: Ev, a: usize, b: usize) {
+    if let Some(h) = hooks() {
+        h.event(ev, a, b);
+    }
+}
+
+#[inline]
+pub(crate) fn spin_hint() {
+    if let Some(h) = hooks() {
+        h.spin();
+    }
+}
+
+#[inline]
+pub(crate) fn knob_ncpu(real: usize) -> usize {
+    hooks().and_then(|h| h.ncpu()).unwrap_or(real)
+}
+
+#[inline]
+pub(crate) fn knob_stride(computed: isize, n: usize, ncpu: usize) -> isize {
+    match hooks().and_then(|h| h.min_stride()) {
+        None => computed,
+        Some(min) => {
+            let s = if ncpu > 1 { (n >> 3) / ncpu } else { n };
+            std::cmp::max(s as isize, std::cmp::max(min, 1))
+        }
+    }
+}
+
+pub(crate) fn guard_info(guard: &seize::Guard<'_>) -> (usize, bool) {
+    match guard.collector() {
+        Some(c) => (c as *const seize::Collector as usize, true),
+        None => (0, false),
+    }
+}
+
+/* ------------------------------ atomics ------------------------------ */
+
+macro_rules! shim_atomic {
+    ($name:ident, $std:ty, $int:ty, $loc:expr) => {
+        #[repr(transparent)]
+        pub struct $name($std);
+
+        impl $name {
+            pub const fn new(v: $int) -> Self {
+                Self(<$std>::new(v))
+            }
+            #[inline]
+            fn acc(&self, kind: Kind, ord: Ordering, ord_fail: Ordering, done: bool, ok: bool) {
+                access(Access {
+                    addr: self as *const Self as usize,
+                    loc: $loc,
+                    kind,
+                    ord,
+                    ord_fail,
+                    collector: usize::MAX,
+                    protected: false,
+                    done,
+                    ok,
+                });
+            }
+            #[inline]
+            pub fn load(&self, ord: Ordering) -> $int {
+                self.acc(Kind::Load, ord, ord, false, true);
+                let v = self.0.load(ord);
+                self.acc(Kind::Load, ord, ord, true, true);
+                v
+            }
+            #[inline]
+            pub fn store(&self, v: $int, ord: Ordering) {
+                self.acc(Kind::Store, ord, ord, false, true);
+                self.0.store(v, ord);
+                self.acc(Kind::Store, ord, ord, true, true);
+            }
+            #[inline]
+            pub fn compare_exchange(
+                &self,
+                cur: $int,
+                new: $int,
+                s: Ordering,
+                f: Ordering,
+            ) -> Result<$int, $int> {
+                self.acc(Kind::Cas, s, f, false, true);
+                let r = self.0.compare_exchange(cur, new, s, f);
+                self.acc(Kind::Cas, s, f, true, r.is_ok());
+                r
+            }
+            #[inline]
+            pub fn fetch_add(&self, v: $int, ord: Ordering) -> $int {
+                self.acc(Kind::FetchAdd, ord, ord, false, true);
+                let r = self.0.fetch_add(v, ord);
+                self.acc(Kind::FetchAdd, ord, ord, true, true);
+                r
+            }
+            #[inline]
+            pub fn fetch_sub(&self, v: $int, ord: Ordering) -> $int {
+                self.acc(Kind::FetchSub, ord, ord, false, true);
+                let r = self.0.fetch_sub(v, ord);
+                self.acc(Kind::FetchSub, ord, ord, true, true);
+                r
+            }
+            /// Raw read for the inspector: no seam, no yield point.
+            #[inline]
+            pub fn peek(&self) -> $int {
+                self.0.load(Ordering::SeqCst)
+            }
+        }
+
+        impl fmt::Debug for $name {
+            fn fmt(&self, f: &mut fmt::Formatter<'_>) -> fmt::Result {
+                fmt::Debug::fmt(&self.0, f)
+            }
+        }
+    };
+}
+
+shim_atomic!(AtomicIsize, sa::AtomicIsize, isize, Loc::Ctl);
+shim_atomic!(AtomicI64, sa::AtomicI64, i64, Loc::LockState);
+
+/* ------------------------------ bin locks ------------------------------ */
+
+/// Stand-in for the `parking_lot` crate name inside `node.rs`.
+pub mod shim {
+    use super::{event, hooks, Ev};
+    use std::fmt;
+
+    pub struct Mutex<T>(::parking_lot::Mutex<T>);
+
+    pub struct MutexGuard<'a, T> {
+        inner: Option<::parking_lot::MutexGuard<'a, T>>,
+        addr: usize,
+    }
+
+    impl<T> Mutex<T> {
+        pub fn new(v: T) -> Self {
+            Self(::parking_lot::Mutex::new(v))
+        }
+
+        pub fn lock(&self) -> MutexGuard<'_, T> {
+            let addr = self as *const Self as usize;
+            match hooks() {
+                None => MutexGuard {
+                    inner: Some(self.0.lock()),
+                    addr,
+                },
+                Some(h) => {
+                    // the attempt to lock is a yield point of its own
+                    h.access(&super::Access {
+                        addr,
+                        loc: super::Loc::Ptr,
+                        kind: super::Kind::Cas,
+                        ord: std::sync::atomic::Ordering::Acquire,
+                        ord_fail: std::sync::atomic::Ordering::Relaxed,
+                        collector: usize::MAX - 1,
+                        protected: false,
+                        done: false,
+                        ok: true,
+                    });
+                    loop {
+                        if let Some(g) = self.0.try_lock() {
+                            h.event(Ev::LockAcquired, addr, 0);
+                            return MutexGuard {
+                                inner: Some(g),
+                                addr,
+                            };
+                        }
+                        h.lock_blocked(addr);
+                    }
+                }
+            }
+        }
+
+        /// For the inspector: is the lock free right now?
+        pub fn is_locked(&self) -> bool {
+            self.0.is_locked()
+        }
+    }
+
+    impl<T> Drop for MutexGuard<'_, T> {
+        fn drop(&mut self) {
+            drop(self.inner.take());
+            event(Ev::LockReleased, self.addr, 0);
+        }
+    }
+
+    impl<T> std::ops::Deref for MutexGuard<'_, T> {
+        type Target = T;
+        fn deref(&self) -> &T {
+            self.inner.as_ref().unwrap()
+        }
+    }
+
+    impl<T: fmt::Debug> fmt::Debug for Mutex<T> {
+        fn fmt(&self, f: &mut fmt::Formatter<'_>) -> fmt::Result {
+            fmt::Debug::fmt(&self.0, f)
+        }
+    }
+}
+
+/* ------------------------------ park / unpark ------------------------------ */
+
+/// Stand-in for `std::thread::Thread` as used by the tree-bin waiter protocol.
+#[derive(Debug)]
+pub struct Thread {
+    token: Option<usize>,
+    real: std::thread::Thread,
+}
+
+impl Thread {
+    pub fn unpark(&self) {
+        match (self.token, hooks()) {
+            (Some(t), Some(h)) => {
+                event(Ev::ReaderUnparks, t, 0);
+                h.unpark(t)
+            }
+            _ => self.real.unpark(),
+        }
+    }
+}
+
+pub fn current() -> Thread {
+    Thread {
+        token: hooks().map(|h| h.current()),
+        real: std::thread::current(),
+    }
+}
+
+pub fn park() {
+    match hooks() {
+        Some(h) => {
+            h.event(Ev::WriterParks, 0, 0);
+            h.park()
+        }
+        None => std::thread::park(),
+    }
+}
